@@ -6,6 +6,7 @@ mod c08;
 mod c11;
 mod c11gen;
 mod c12;
+mod diffops;
 mod sexp;
 mod slots;
 mod lexutil;
@@ -47,6 +48,10 @@ fn main() {
         "c12" => c12::run(&tier, seed),
         "pipe" => pipe::run(&tier, seed),
         "slots" => slots::run(&tier, seed),
+        "diffops" => {
+            diffops::run(&args[2], &args[3]);
+            return;
+        }
         "optable" => {
             optable::run();
             return;
